@@ -8,6 +8,7 @@ var specs = []Spec{
 	{ID: "C01", Level: "exploration", MinDistinct: 50, Engines: []Engine{
 		{Name: "seq", Pkg: "./mon/c01", Procs: 1},
 		{Name: "par", Pkg: "./mon/c01par", Race: true, DeathSig: "C01/par:process-died"},
+		{Name: "first", Pkg: "./mon/c01par", Env: []string{"VERIF_MODE=first"}, Par: true, RepeatQuick: 32, RepeatThorough: 320, DeathSig: "C01/first:process-died"},
 	}},
 	{ID: "C02", Level: "exploration", MinDistinct: 50, Engines: []Engine{
 		{Name: "seq", Pkg: "./mon/c02", Procs: 1},
